@@ -30,7 +30,7 @@ SPLIT_KINDS = True         # thorough tier: one shard per geometry kind
 DECIDING_COUNTERS = ["packs_returned", "fs_events"]
 
 RETRY = dict(wait_fixed=1, stop_max_attempt_number=3)
-MODES = ["default", "ext-uuid", "ext-nouuid"]
+MODES = ["default", "ext-uuid", "ext-nouuid", "ext-uuid-parent"]
 
 
 def shards(tier, seed):
@@ -77,7 +77,7 @@ def gen_case(rng, kind):
     k = int(rng.integers(1, 17)) if rng.random() < 0.5 else int(rng.integers(1, max(2, n // 2) + 1))
     npin = int(rng.integers(1, 5)) if (n < 13 or rng.random() < 0.6) else int(rng.choice([11, 12, 13]))
     return {"spec": spec, "kind": kind, "npin": npin, "npartitions": k if npin < 11 else int(rng.integers(1, 4)),
-            "p": int(rng.choice([2, 6, 10, 15, 17, 20])), "mode": MODES[int(rng.integers(3))],
+            "p": int(rng.choice([2, 6, 10, 15, 17, 20])), "mode": MODES[int(rng.integers(len(MODES)))],
             "compression": ["snappy", "gzip", None][int(rng.integers(3))],
             "int_type": [None, None, "np.int64", "np.int32"][int(rng.integers(4))],
             "relative": bool(rng.random() < 0.12),
@@ -90,6 +90,8 @@ def tempdir_format(mode, root):
         return None
     if mode == "ext-uuid":
         return os.path.join(root, "tmp", "t-{uuid}-{partition}")
+    if mode == "ext-uuid-parent":
+        return os.path.join(root, "tmp", "{uuid}", "t-{partition}")     # one {uuid} directory above all partitions
     return os.path.join(root, "tmp", "t-{partition}")
 
 
@@ -251,6 +253,16 @@ def check_case(ctx, case):
             tree = fsmon.scan_tree(root)
             exp_tree = {"ds.parq/": "dir", "tmp/": "dir"}
             exp_tree.update({f"ds.parq/{n_}": t for n_, t in expected_listing(nonempty).items()})
+            uuid_dirs = []
+            if mode == "ext-uuid-parent":
+                import re as _re
+                uuid_dirs = [t for t in tree if _re.fullmatch(r"tmp/[0-9a-f-]{36}/", t)
+                             and not any(u != t and u.startswith(t) for u in tree)]
+                if uuid_dirs:
+                    # the empty {uuid} directory above the per-partition temp directories is left behind
+                    viol("dataset-listing", "pack_to_parquet:listing:ext-uuid-parent:empty-uuid-directory-left",
+                         [], ["tmp/<uuid>/"])
+                    tree = {t: v_ for t, v_ in tree.items() if t not in uuid_dirs}
             if tree != exp_tree:
                 extra = sorted(set(tree) - set(exp_tree))
                 missing = sorted(set(exp_tree) - set(tree))
